@@ -60,10 +60,421 @@ let set_machine (probe : bool) : machine =
       c ^ " ret=" ^ ret ^ " " ^ dump () in
   { init; op }
 
+(* ---------------------------------------------------------------- exact values *)
+let q_of_tok t : Model.q =
+  match String.split_on_char '/' t with
+  | [n; d] -> { Model.qnum = z_of_string n; Model.qden = pos_of_zarith (Z.of_string d) }
+  | [n] -> { Model.qnum = z_of_string n; Model.qden = Model.XH }
+  | _ -> failwith ("bad rational " ^ t)
+let qs (x : Model.q) =
+  let r = Model.qred x in
+  string_of_z r.Model.qnum ^ "/" ^ Z.to_string (zarith_of_pos r.Model.qden)
+let qzero = q_of_tok "0/1"
+let is_zero (x : Model.q) = (Model.qred x).Model.qnum = Model.Z0
+let n_of_int = nat_of_int
+let svs_str (v : Model.svec) = String.concat "" (List.map (fun (i, x) -> string_of_int (int_of_nat i) ^ ":" ^ qs x ^ ";") v)
+(* the value of the double 1e-16 (Tolerances::epsilon()) *)
+let eps = q_of_tok "2028240960365167/20282409603651670423947251286016"
+
+(* ---------------------------------------------------------------- vectors: register machine *)
+let vec_machine () : machine =
+  let d = Array.make 2 [] and sv = Array.make 2 [] and x = Array.make 2 (Model.ss_new Model.O) in
+  let dump () =
+    let b = Buffer.create 256 in
+    Array.iteri (fun r v -> Buffer.add_string b (Printf.sprintf "D%d=%s " r (clist qs v))) d;
+    Array.iteri (fun r v -> Buffer.add_string b (Printf.sprintf "S%d=%s " r (svs_str v))) sv;
+    Array.iteri (fun r (v : Model.ssvec) ->
+        Buffer.add_string b (Printf.sprintf "X%d=%s:%s:%s " r (if v.Model.ss_setup then "S" else "U")
+                               (clist qs v.Model.ss_val)
+                               (if v.Model.ss_setup then clist (fun i -> string_of_int (int_of_nat i)) v.Model.ss_idx else ""))) x;
+    Buffer.contents b in
+  let init t =
+    let n = match t with _ :: _ :: _ :: m :: _ -> int_of_string m | _ -> 4 in
+    for r = 0 to 1 do
+      d.(r) <- Model.dv_zero (n_of_int n); sv.(r) <- []; x.(r) <- Model.ss_new (n_of_int n)
+    done;
+    dump () in
+  let reg s = Char.code s.[1] - Char.code '0' in
+  let dim v = List.length v in
+  let xdim (v : Model.ssvec) = List.length v.Model.ss_val in
+  let in_dim (v : Model.svec) n = List.for_all (fun (i, _) -> int_of_nat i < n) v in
+  let sorted_strict (v : Model.svec) =
+    let rec go = function (a, _) :: ((b, _) :: _ as r) -> int_of_nat a < int_of_nat b && go r | _ -> true in go v in
+  let op t =
+    let c = List.hd t in
+    let a k = List.nth t k in
+    let ai k = int_of_string (a k) in
+    let ret = ref "-" in
+    let skip = ref false in
+    let guard b f = if b then f () else skip := true in
+    (match c with
+     | "dset" -> let r = reg (a 1) in guard (ai 2 >= 0 && ai 2 < dim d.(r)) (fun () -> d.(r) <- Model.dv_set d.(r) (n_of_int (ai 2)) (q_of_tok (a 3)))
+     | "dclear" -> let r = reg (a 1) in d.(r) <- Model.dv_clear d.(r)
+     | "dadd" -> let r = reg (a 1) and e = reg (a 2) in guard (dim d.(r) = dim d.(e)) (fun () -> d.(r) <- Model.dv_add d.(r) d.(e))
+     | "dsub" -> let r = reg (a 1) and e = reg (a 2) in guard (dim d.(r) = dim d.(e)) (fun () -> d.(r) <- Model.dv_sub d.(r) d.(e))
+     | "ddot" -> let r = reg (a 1) and e = reg (a 2) in guard (dim d.(r) = dim d.(e)) (fun () -> ret := qs (Model.dv_dot d.(r) d.(e)))
+     | "dmadd" -> let r = reg (a 1) and e = reg (a 3) in guard (dim d.(r) = dim d.(e)) (fun () -> d.(r) <- Model.dv_multadd (q_of_tok (a 2)) d.(e) d.(r))
+     | "dscale" -> let r = reg (a 1) in d.(r) <- Model.dv_scale (q_of_tok (a 2)) d.(r)
+     | "dmaxabs" -> let r = reg (a 1) in guard (dim d.(r) > 0) (fun () -> ret := qs (Model.dv_maxabs d.(r)))
+     | "dminabs" -> let r = reg (a 1) in guard (dim d.(r) > 0) (fun () -> match Model.dv_minabs d.(r) with Some m -> ret := qs m | None -> ())
+     | "dlen2" -> ret := qs (Model.dv_length2 d.(reg (a 1)))
+     | "dredim" -> let r = reg (a 1) in guard (ai 2 >= 0) (fun () -> d.(r) <- Model.dv_redim (n_of_int (ai 2)) d.(r))
+     | "daddsv" | "dsubsv" | "dassignsv" | "dsetsv" | "ddotsv" | "sdotd" ->
+       let r = reg (a (if c = "sdotd" then 2 else 1)) and s = reg (a (if c = "sdotd" then 1 else 2)) in
+       guard (in_dim sv.(s) (dim d.(r))) (fun () ->
+           match c with
+           | "daddsv" -> d.(r) <- Model.dv_add_sv sv.(s) d.(r)
+           | "dsubsv" -> d.(r) <- Model.dv_sub_sv sv.(s) d.(r)
+           | "dassignsv" -> d.(r) <- Model.dv_assign_sv sv.(s) d.(r)
+           | "dsetsv" -> d.(r) <- Model.dv_set_sv sv.(s) d.(r)
+           | _ -> ret := qs (Model.sv_dot_dv sv.(s) d.(r)))
+     | "dmaddsv" | "dmsubsv" ->
+       let r = reg (a 1) and s = reg (a 3) in
+       guard (in_dim sv.(s) (dim d.(r))) (fun () ->
+           d.(r) <- (if c = "dmaddsv" then Model.dv_multadd_sv else Model.dv_multsub_sv) (q_of_tok (a 2)) sv.(s) d.(r))
+     | "daddss" | "dsubss" | "ddotss" | "dsetss" | "dassignss" ->
+       let r = reg (a 1) and y = reg (a 2) in
+       guard (dim d.(r) = xdim x.(y) && (c <> "dassignss" || x.(y).Model.ss_setup)) (fun () ->
+           match c with
+           | "daddss" -> d.(r) <- Model.dv_add_ss x.(y) d.(r)
+           | "dsubss" -> d.(r) <- Model.dv_sub_ss x.(y) d.(r)
+           | "ddotss" -> ret := qs (Model.dv_dot_ss d.(r) x.(y))
+           | "dsetss" -> d.(r) <- Model.dv_set_ss x.(y) d.(r)
+           | _ -> d.(r) <- Model.dv_assign_sv (Model.ss_entries x.(y)) d.(r))
+     | "dmaddss" -> let r = reg (a 1) and y = reg (a 3) in
+       guard (dim d.(r) = xdim x.(y)) (fun () -> d.(r) <- Model.dv_multadd_ss (q_of_tok (a 2)) x.(y) d.(r))
+     | "sadd" -> let s = reg (a 1) in guard (ai 2 >= 0) (fun () -> sv.(s) <- Model.sv_add (n_of_int (ai 2)) (q_of_tok (a 3)) sv.(s))
+     | "saddn" ->
+       let s = reg (a 1) in
+       let rec es = function i :: v :: r -> (n_of_int (int_of_string i), q_of_tok v) :: es r | _ -> [] in
+       sv.(s) <- Model.sv_add_list (es (List.tl (List.tl t))) sv.(s)
+     | "srm" -> let s = reg (a 1) in guard (ai 2 >= 0 && ai 2 < List.length sv.(s)) (fun () -> sv.(s) <- Model.sv_remove (n_of_int (ai 2)) sv.(s))
+     | "srmr" | "srmrs" ->
+       (* remove(n, m) as documented: the non-zeros n..m are removed (the order of the others is free: the model keeps
+          the leading ones and moves the trailing ones into the hole like IdxSet::remove(n, m)) *)
+       let s = reg (a 1) in let n = ai 2 and m = ai 3 in
+       guard (0 <= n && n <= m && m < List.length sv.(s) && (c = "srmr" || m < List.length sv.(s) - 1)) (fun () ->
+           let l = sv.(s) in
+           let keep = List.filteri (fun i _ -> i < n || i > m) l in
+           ignore keep;
+           let size = List.length l in
+           let count = m + 1 - n in
+           let tail = size - (m + 1) in
+           let cpy = min count tail in
+           let take k l = List.filteri (fun i _ -> i < k) l and drop k l = List.filteri (fun i _ -> i >= k) l in
+           sv.(s) <- take n l @ drop (size - cpy) l @ take (size - count - n - cpy) (drop (n + cpy) l))
+     | "sclear" -> sv.(reg (a 1)) <- []
+     | "sscale" -> let s = reg (a 1) in guard (not (is_zero (q_of_tok (a 2)))) (fun () -> sv.(s) <- Model.sv_scale (q_of_tok (a 2)) sv.(s))
+     | "ssort" -> let s = reg (a 1) in sv.(s) <- Model.sv_sort sv.(s)
+     | "sassign" -> let s = reg (a 1) and u = reg (a 2) in guard (s <> u) (fun () -> sv.(s) <- Model.sv_assign sv.(u))
+     | "sfromd" -> sv.(reg (a 1)) <- Model.sv_of_dv d.(reg (a 2))
+     | "sfromss" -> let y = reg (a 2) in guard x.(y).Model.ss_setup (fun () -> sv.(reg (a 1)) <- Model.sv_of_ss x.(y))
+     | "sdot" -> let s = reg (a 1) and u = reg (a 2) in
+       guard (sorted_strict sv.(s) && sorted_strict sv.(u)) (fun () -> ret := qs (Model.sv_dot_sv sv.(s) sv.(u)))
+     | "smaxabs" -> ret := qs (Model.sv_maxabs sv.(reg (a 1)))
+     | "sminabs" -> let s = reg (a 1) in guard (sv.(s) <> []) (fun () -> match Model.sv_minabs sv.(s) with Some m -> ret := qs m | None -> ())
+     | "slen2" -> ret := qs (Model.sv_length2 sv.(reg (a 1)))
+     | "sdim" -> ret := string_of_int (int_of_nat (Model.sv_dim sv.(reg (a 1))))
+     | "spos" -> ret := (if ai 2 < 0 then "-1" else match Model.sv_pos sv.(reg (a 1)) (n_of_int (ai 2)) with Some p -> string_of_int (int_of_nat p) | None -> "-1")
+     | "sget" -> ret := (if ai 2 < 0 then qs qzero else qs (Model.sv_get sv.(reg (a 1)) (n_of_int (ai 2))))
+     | "stimes" -> let s = reg (a 1) and u = reg (a 2) in guard (s <> u) (fun () -> sv.(s) <- Model.sv_assign (Model.sv_times sv.(u) (q_of_tok (a 3))))
+     | "sunit" -> guard (ai 2 >= 0) (fun () -> sv.(reg (a 1)) <- Model.sv_unit (n_of_int (ai 2)))
+     | "xset" -> let r = reg (a 1) in guard (ai 2 >= 0 && ai 2 < xdim x.(r)) (fun () -> x.(r) <- Model.ss_setvalue eps (n_of_int (ai 2)) (q_of_tok (a 3)) x.(r))
+     | "xadd" ->
+       let r = reg (a 1) in let i = ai 2 in
+       guard (i >= 0 && i < xdim x.(r) && x.(r).Model.ss_setup && is_zero (Model.dv_get x.(r).Model.ss_val (n_of_int i))
+              && not (List.exists (fun k -> int_of_nat k = i) x.(r).Model.ss_idx))
+         (fun () -> x.(r) <- Model.ss_add (n_of_int i) (q_of_tok (a 3)) x.(r))
+     | "xclearidx" -> let r = reg (a 1) in guard (ai 2 >= 0 && ai 2 < xdim x.(r)) (fun () -> x.(r) <- Model.ss_clearidx (n_of_int (ai 2)) x.(r))
+     | "xclearnum" -> let r = reg (a 1) in
+       guard (x.(r).Model.ss_setup && ai 2 >= 0 && ai 2 < List.length x.(r).Model.ss_idx) (fun () -> x.(r) <- Model.ss_clearnum (n_of_int (ai 2)) x.(r))
+     | "xclear" -> let r = reg (a 1) in x.(r) <- Model.ss_clear x.(r)
+     | "xsetup" -> let r = reg (a 1) in x.(r) <- Model.ss_do_setup eps x.(r)
+     | "xunsetup" -> let r = reg (a 1) in x.(r) <- Model.ss_unsetup x.(r)
+     | "xscale" -> let r = reg (a 1) in guard (x.(r).Model.ss_setup && not (is_zero (q_of_tok (a 2)))) (fun () -> x.(r) <- Model.ss_scale (q_of_tok (a 2)) x.(r))
+     | "xadddv" | "xsubdv" | "xmadddv" ->
+       let r = reg (a 1) and e = reg (a (if c = "xmadddv" then 3 else 2)) in
+       guard (xdim x.(r) = dim d.(e)) (fun () ->
+           x.(r) <- (match c with
+               | "xadddv" -> Model.ss_add_dv eps d.(e) x.(r)
+               | "xsubdv" -> Model.ss_sub_dv eps d.(e) x.(r)
+               | _ -> Model.ss_multadd_dv eps (q_of_tok (a 2)) d.(e) x.(r)))
+     | "xaddsv" | "xsubsv" | "xsetsv" | "xmaddsv" ->
+       let r = reg (a 1) and s = reg (a (if c = "xmaddsv" then 3 else 2)) in
+       guard (in_dim sv.(s) (xdim x.(r))) (fun () ->
+           x.(r) <- (match c with
+               | "xaddsv" -> Model.ss_add_sv eps sv.(s) x.(r)
+               | "xsubsv" -> Model.ss_sub_sv eps sv.(s) x.(r)
+               | "xsetsv" -> Model.ss_set_sv eps sv.(s) x.(r)
+               | _ -> Model.ss_multadd_sv eps (q_of_tok (a 2)) sv.(s) x.(r)))
+     | "xaddss" | "xsubss" | "xdot" | "xassign" ->
+       let r = reg (a 1) and y = reg (a 2) in
+       guard (r <> y && xdim x.(r) = xdim x.(y) && (c = "xsubss" || c = "xassign" || x.(y).Model.ss_setup)) (fun () ->
+           match c with
+           | "xaddss" -> x.(r) <- Model.ss_add_ss eps x.(y) x.(r)
+           | "xsubss" -> x.(r) <- Model.ss_sub_ss eps x.(y) x.(r)
+           | "xdot" -> x.(r) <- Model.ss_do_setup eps x.(r); ret := qs (Model.ss_dot_ss x.(r) x.(y))
+           | _ ->
+             (* operator=(SSVectorBase): the values of rhs with |v| > eps, set up (from the index list of a set-up rhs,
+                from a scan otherwise) *)
+             let src = if x.(y).Model.ss_setup then x.(y) else Model.ss_do_setup eps x.(y) in
+             x.(r) <- Model.ss_set_sv eps (Model.ss_entries src) (Model.ss_new (n_of_int (xdim x.(y)))))
+     | "xredim" -> let r = reg (a 1) in guard (ai 2 >= 1) (fun () -> x.(r) <- Model.ss_redim (n_of_int (ai 2)) x.(r))
+     | _ -> ret := "unknown");
+    c ^ " ret=" ^ (if !skip then "skip" else !ret) ^ " " ^ dump () in
+  { init; op }
+
+(* ---------------------------------------------------------------- SVSet / LPRowSet / LPColSet *)
+let vset_machine (nscal : int) : machine =
+  let d0 : Model.q list * Model.svec = ([], []) in
+  let st = ref (Model.ds_init d0 (zi 8)) in
+  let dump () =
+    let s = !st in
+    let size = iz s.Model.thesize in
+    let abs = Model.ds_abs d0 s in
+    Printf.sprintf "num=%s max=%s keys=%s slots=%s vecs=%s bykey=%s"
+      (zs s.Model.thenum) (zs s.Model.themax) (clist (fun (k, _) -> zs k) abs)
+      (String.concat "" (List.init size (fun i -> if Model.ds_has_key s (zi i) then
+                                                  (match Model.ds_number s (zi i) with Some n -> zs n | None -> "?") ^ "," else "x,")))
+      (String.concat "" (List.map (fun (_, (sc, v)) -> clist qs sc ^ svs_str v ^ "|") abs))
+      (String.concat "" (List.init size (fun i -> if Model.ds_has_key s (zi i) then
+                                                  svs_str (snd (Model.getn d0 s.Model.data (zi i))) ^ "|" else "x|"))) in
+  let init t =
+    let m = match t with _ :: _ :: _ :: m :: _ -> int_of_string m | _ -> 2 in
+    st := Model.ds_init d0 (zi (if m > 0 then m else 8));
+    dump () in
+  let rec entries = function i :: v :: r -> (n_of_int (int_of_string i), q_of_tok v) :: entries r | _ -> [] in
+  let rec split k l = if k = 0 then ([], l) else match l with x :: r -> let (a, b) = split (k - 1) r in (x :: a, b) | [] -> ([], []) in
+  let perm_ret p = "perm:" ^ clist zs p in
+  let op t =
+    let c = List.hd t and a = List.tl t in
+    let s = !st in
+    let has n = Model.ds_has_num s (zi n) in
+    let ret = ref "-" in
+    (match c, a with
+     | "add", rest ->
+       let (sc, es) = split nscal rest in
+       let v = Model.sv_assign (entries es) in
+       let (s', k) = Model.svs_add d0 s (List.map q_of_tok sc, v) in
+       st := s'; ret := "key:" ^ zs k
+     | "add2", n :: es ->
+       let n = int_of_string n in
+       if not (has n) then ret := "skip"
+       else begin
+         let k = Model.ds_key s (zi n) in
+         let (sc, v) = Model.getn d0 s.Model.data k in
+         st := Model.ds_set_num s (zi n) (sc, Model.sv_add_list (entries es) v)
+       end
+     | "xtend", [n; m] -> if not (has (int_of_string n)) || int_of_string m < 0 then ret := "skip"
+     | "setscal", [n; j; v] ->
+       let n = int_of_string n and j = int_of_string j in
+       if not (has n) || j >= nscal then ret := "skip"
+       else begin
+         let k = Model.ds_key s (zi n) in
+         let (sc, vec) = Model.getn d0 s.Model.data k in
+         st := Model.ds_set_num s (zi n) (List.mapi (fun i x -> if i = j then q_of_tok v else x) sc, vec)
+       end
+     | "rm", [n] -> if not (has (int_of_string n)) then ret := "skip" else st := Model.ds_remove_num s (zi (int_of_string n))
+     | "rmk", [k] ->
+       let k = int_of_string k in
+       if k < 0 || k >= iz s.Model.thesize || not (Model.ds_has_key s (zi k)) then ret := "skip"
+       else (match Model.ds_number s (zi k) with Some n -> st := Model.ds_remove_num s n | None -> ret := "skip")
+     | "rmp", vs ->
+       let (s', p) = Model.ds_remove_perm s (Model.pad_perm s (ints vs)) in st := s'; ret := perm_ret p
+     | "rmn", vs ->
+       if List.for_all (fun v -> has (int_of_string v)) vs then begin
+         let (s', p) = Model.ds_remove_nums s (ints vs) in st := s'; ret := perm_ret p end
+       else ret := "skip"
+     | "clear", [] -> st := Model.ds_clear s
+     | "remax", [m] -> st := Model.ds_remax d0 s (zi (int_of_string m))
+     | "memremax", [_] | "mempack", [] -> ()
+     | "copy", [] -> st := Model.ds_assign d0 (Model.ds_init d0 (zi 8)) s     (* SVSetBase(const SVSetBase&): default set, then operator= *)
+     | "assign", [m] ->
+       let m = int_of_string m in
+       st := Model.ds_assign d0 (Model.ds_init d0 (zi (if m > 0 then m else 8))) s
+     | _ -> ret := "unknown");
+    c ^ " ret=" ^ !ret ^ " " ^ dump () in
+  { init; op }
+
+(* ---------------------------------------------------------------- IdxSet / DIdxSet *)
+let idx_machine (dyn : bool) : machine =
+  let l = ref [] and mx = ref 4 in
+  let dump () =
+    Printf.sprintf "size=%d max=%d idx=%s dim=%s pos=%s%s" (List.length !l) !mx (clist zs !l) (zs (Model.is_dim !l))
+      (String.concat "" (List.init 8 (fun i -> zs (Model.is_pos !l (zi i)) ^ ",")))
+      (if dyn then "" else " under=0") in
+  let init t =
+    let m = match t with _ :: _ :: _ :: m :: _ -> int_of_string m | _ -> 4 in
+    l := []; mx := (if dyn then max 1 m else m); dump () in
+  let op t =
+    let c = List.hd t and a = List.tl t in
+    let size = List.length !l in
+    let ret = ref "-" in
+    (match c, a with
+     | "addidx", [i] ->
+       if (not dyn) && size >= !mx then ret := "skip"
+       else begin
+         if dyn && !mx <= size then mx := iz (Model.dis_setmax (zi size) (zi (size + 1)));
+         l := Model.is_add !l (zi (int_of_string i)) end
+     | "addn", vs ->
+       let n = List.length vs in
+       if (not dyn) && size + n > !mx then ret := "skip"
+       else begin
+         if dyn then mx := iz (Model.dis_room (zi size) (zi !mx) (zi n));
+         l := Model.is_add_list !l (ints vs) end
+     | "rm", [n] -> let n = int_of_string n in if n < 0 || n >= size then ret := "skip" else l := Model.is_remove_pos !l (zi n)
+     | "rmr", [n; m] ->
+       let n = int_of_string n and m = int_of_string m in
+       if not (0 <= n && n <= m && m < size) || (dyn && n = 0 && m = size - 1) then ret := "skip"
+       else l := Model.is_remove_range !l (zi n) (zi m)
+     | "clear", [] -> l := []
+     | "setmax", [m] -> if not dyn then ret := "skip" else mx := iz (Model.dis_setmax (zi size) (zi (int_of_string m)))
+     | "copy", [] -> if not dyn then ret := "skip" else mx := max 1 size
+     | "assign", [m] ->
+       if not dyn then ret := "skip"
+       else mx := iz (Model.dis_setmax (zi 0) (zi size))      (* DIdxSet(m) then setMax(size()) *)
+     | _ -> ret := "unknown");
+    c ^ " ret=" ^ !ret ^ " " ^ dump () in
+  { init; op }
+
+(* ---------------------------------------------------------------- NameSet *)
+let name_machine () : machine =
+  let st = ref (Model.ds_init Model.Z0 (zi 2)) in
+  let dump () =
+    let s = !st in
+    let abs = Model.ds_abs Model.Z0 s in
+    Printf.sprintf "num=%s max=%s size=%s names=%s keys=%s look=%s" (zs s.Model.thenum) (zs s.Model.themax) (zs s.Model.thesize)
+      (clist (fun (_, n) -> zs n) abs) (clist (fun (k, _) -> zs k) abs)
+      (String.concat "" (List.init 8 (fun id ->
+           let id = zi id in
+           if Model.ns_has s id then
+             let k = Model.ns_key s id in
+             Printf.sprintf "%s:%s:%s," (zs (Model.ns_number s id)) (zs k) (zs (Model.getn Model.Z0 s.Model.data k))
+           else "-:-1:-1,"))) in
+  let init t =
+    let m = match t with _ :: _ :: _ :: m :: _ -> int_of_string m | _ -> 2 in
+    st := Model.ds_init Model.Z0 (zi m); dump () in
+  let distinct l = List.length (List.sort_uniq compare l) = List.length l in
+  let op t =
+    let c = List.hd t and a = List.tl t in
+    let s = !st in
+    let ret = ref "-" in
+    let valid_key k = k >= 0 && k < iz s.Model.thesize && Model.ds_has_key s (zi k) in
+    (match c, a with
+     | "add", [id] ->
+       let (s', k) = Model.ns_add s (zi (int_of_string id)) in
+       st := s'; ret := (match k with Some k -> "key:" ^ zs k | None -> "none")
+     | "rmname", [id] -> st := Model.ns_remove_name s (zi (int_of_string id))
+     | "rmnum", [n] -> if Model.ds_has_num s (zi (int_of_string n)) then st := Model.ns_remove_num s (zi (int_of_string n)) else ret := "skip"
+     | "rmkey", [k] ->
+       if valid_key (int_of_string k) then st := Model.ns_remove_keys s [zi (int_of_string k)] else ret := "skip"
+     | "rmnums", vs ->
+       let v = List.map int_of_string vs in
+       if distinct v && List.for_all (fun n -> Model.ds_has_num s (zi n)) v then st := Model.ns_remove_nums s (List.map zi v)
+       else ret := "skip"
+     | "rmkeys", vs ->
+       let v = List.map int_of_string vs in
+       if distinct v && List.for_all valid_key v then st := Model.ns_remove_keys s (List.map zi v) else ret := "skip"
+     | "rmp", vs ->
+       let (s', p) = Model.ns_remove_perm s (Model.pad_perm s (ints vs)) in st := s'; ret := "perm:" ^ clist zs p
+     | "clear", [] -> st := Model.ns_clear s
+     | "remax", [m] -> st := Model.ns_remax s (zi (int_of_string m))
+     | "memremax", [_] | "mempack", [] -> ()
+     | _ -> ret := "unknown");
+    c ^ " ret=" ^ !ret ^ " " ^ dump () in
+  { init; op }
+
+(* ---------------------------------------------------------------- DataHashTable *)
+let hash_machine () : machine =
+  let t = ref [] in
+  let dump () =
+    "look=" ^ String.concat "" (List.init 10 (fun i -> match Model.ht_get !t (zi (i - 2)) with Some v -> zs v ^ "," | None -> "-,")) in
+  let init _ = t := []; dump () in
+  let op tk =
+    let c = List.hd tk and a = List.tl tk in
+    let ret = ref "-" in
+    (match c, a with
+     | "add", [k; v] -> if Model.ht_has !t (zi (int_of_string k)) then ret := "skip" else t := Model.ht_add !t (zi (int_of_string k)) (zi (int_of_string v))
+     | "rm", [k] -> t := Model.ht_remove !t (zi (int_of_string k))
+     | "clear", [] -> t := []
+     | "remax", _ | "copy", [] | "assign", [] -> ()
+     | _ -> ret := "unknown");
+    c ^ " ret=" ^ !ret ^ " " ^ dump () in
+  { init; op }
+
+(* ---------------------------------------------------------------- DataArray / Array / ClassArray *)
+let arr_machine (kind : int) : machine =
+  let l = ref [] in
+  let dump () = Printf.sprintf "size=%d elems=%s" (List.length !l) (clist zs !l) in
+  let init _ = l := []; dump () in
+  let op t =
+    let c = List.hd t and a = List.tl t in
+    let size = List.length !l in
+    let ret = ref "-" in
+    (match c, a with
+     | "append", [v] -> l := !l @ [zi (int_of_string v)]
+     | "appendn", vs -> l := !l @ ints vs
+     | "insert", i :: vs ->
+       let i = int_of_string i in
+       if i < 0 || i > size then ret := "skip" else l := Model.arr_insert !l (zi i) (ints vs)
+     | "remove", [n; m] ->
+       let n = int_of_string n and m = int_of_string m in
+       if n < 0 || n >= size || m < 0 then ret := "skip" else l := Model.arr_remove !l (zi n) (zi m)
+     | "removelast", [m] ->
+       let m = int_of_string m in
+       if kind = 1 || m < 0 || m > size then ret := "skip" else l := Model.arr_remove_last !l (zi m)
+     | "clear", [] -> l := []
+     | "resize", [n] -> let n = int_of_string n in if n < 0 then ret := "skip" else l := Model.arr_resize Model.Z0 !l (zi n)
+     | "remax", [_] -> if kind = 1 then ret := "skip"
+     | "copy", [] | "assign", [_] -> ()
+     | _ -> ret := "unknown");
+    c ^ " ret=" ^ !ret ^ " " ^ dump () in
+  { init; op }
+
+(* ---------------------------------------------------------------- IdList / IsList *)
+let list_machine (doubly : bool) : machine =
+  let l = ref [] in
+  let mem x = List.exists (fun y -> iz y = x) !l in
+  let dump () =
+    let ids = List.map iz !l in
+    Printf.sprintf "len=%d fwd=%s bwd=%s first=%d last=%d find=%s" (List.length ids)
+      (clist string_of_int ids) (if doubly then clist string_of_int (List.rev ids) else "-")
+      (match ids with x :: _ -> x | [] -> -1) (match List.rev ids with x :: _ -> x | [] -> -1)
+      (String.concat "" (List.init 8 (fun i -> if mem i then "1" else "0"))) in
+  let init _ = l := []; dump () in
+  let op t =
+    let c = List.hd t and a = List.map int_of_string (List.tl t) in
+    let ok x = x >= 0 && x < 8 in
+    let ret = ref "-" in
+    (match c, a with
+     | "append", [x] -> if not (ok x) || mem x then ret := "skip" else l := Model.lst_append !l (zi x)
+     | "prepend", [x] -> if not (ok x) || mem x then ret := "skip" else l := Model.lst_prepend !l (zi x)
+     | "insert", [x; y] -> if not (ok x) || not (ok y) || mem x || not (mem y) then ret := "skip" else l := Model.lst_insert_after !l (zi x) (zi y)
+     | "remove", [x] -> if not (ok x) || not (mem x) then ret := "skip" else l := Model.lst_remove !l (zi x)
+     | "removenext", [x] ->
+       let rec has_next = function y :: (_ :: _ as r) -> if iz y = x then true else has_next r | _ -> false in
+       if not (ok x) || not (mem x) || not (has_next !l) then ret := "skip" else l := Model.lst_remove_next !l (zi x)
+     | "clear", [] -> l := []
+     | _ -> ret := "unknown");
+    c ^ " ret=" ^ !ret ^ " " ^ dump () in
+  { init; op }
+
 let make kind : machine option =
   match kind with
   | "ds" | "cs" -> Some (set_machine false)
   | "csp" -> Some (set_machine true)
+  | "vecd" | "vecr" -> Some (vec_machine ())
+  | "svs" -> Some (vset_machine 0)
+  | "lprs" | "lpcs" -> Some (vset_machine 3)
+  | "idx" -> Some (idx_machine false)
+  | "didx" -> Some (idx_machine true)
+  | "ns" -> Some (name_machine ())
+  | "ht" -> Some (hash_machine ())
+  | "da" -> Some (arr_machine 0)
+  | "ar" -> Some (arr_machine 1)
+  | "ca" -> Some (arr_machine 2)
+  | "isl" -> Some (list_machine false)
+  | "idl" -> Some (list_machine true)
   | _ -> None
 
 let () =
